@@ -192,6 +192,10 @@ WITNESSES = [
     ["odict", [[["str", "b"], ["int", 1]], [["str", "a"], ["int", 2]]]],
     ["ndarray", ">f8", [2, 3], "F", 3, True],
     ["generator", "Philox", 3, 2],
+    # RandomState over a bit generator other than MT19937 (fixed in the repo: it was created over MT19937 and refused the state),
+    # with a cached gaussian (odd draw count), and next to a plain one
+    ["list", [["randomstate", 3, 1, "PCG64"], ["randomstate", 4, 2, "Philox"], ["randomstate", 5, 3, "SFC64"], ["randomstate", 6, 1, "PCG64DXSM"],
+              ["randomstate", 7, 1, "MT19937"], ["randomstate", 7, 1]]],
     # arrays above a megabyte, in both memory layouts and next to a small one (size-dependent code paths)
     ["list", [["ndarray", "<f8", [400, 420], "F", 4, True], ["ndarray", "<f8", [400, 420], "C", 4, True], ["ndarray", "<i4", [300000], "C", 5, False],
               ["ndarray", ">f8", [2, 70000], "F", 6, False], ["ref", 0]]],
